@@ -7,7 +7,7 @@
 (*                                  autodiscovery functions                               *)
 (*             {known_order, init}  iteration order of register_op's known-type set in    *)
 (*                                  the recording process, projected initial default tree  *)
-(*   behaviour {regs, events}       events: {"a":"new",r} | {"a":"reg",r,t,ops,exact,      *)
+(*   behaviour {regs, events}       events: {"a":"new",r} | {"a":"reg",r,t,ops,exact,off,      *)
 (*                                  tree,map} | {"a":"look",r,t,op,obs,cached}             *)
 (* The machine of GlomRegistry is stepped through the events with its own actions        *)
 (* (Register / Lookup / NewGlommer); after each step                                     *)
@@ -54,7 +54,7 @@ JudgeReg(R1, e) ==
 Step ==
   /\ i <= Len(Rows) /\ j < Len(Rows[i].events)
   /\ LET e == Rows[i].events[j + 1] IN
-     \/ /\ e.a = "reg" /\ Register(e.r, e.t, e.ops, e.exact)
+     \/ /\ e.a = "reg" /\ Register(e.r, e.t, e.ops, e.exact, e.off)
         /\ verdict' = JudgeReg(regs'[e.r], e)
      \/ /\ e.a = "look" /\ Lookup(e.r, e.t, e.op)
         /\ verdict' = JudgeLook(regs[e.r], e, hist'[Len(hist')].h)
